@@ -17,6 +17,7 @@ limitations under the License.
 package main
 
 import (
+	"sort"
 	"strconv"
 	"strings"
 
@@ -143,6 +144,10 @@ func (c *MessageBuildContext) GetOneOfNames() []string {
 			name = strcase.UpperCamelCase(name)
 		}
 		s[i] = name
+	}
+	// With sorting enabled the output must not depend on the declaration order of oneof groups
+	if c.config.Sort {
+		sort.Strings(s)
 	}
 	return s
 }
